@@ -30,6 +30,9 @@ META = {
 }
 
 SPECIAL = ["1", "e5", "O0", "S1", "O1", "S0", "_", "a_b", "X_1", "007", "E", "inf", "nan", "x1e3", "A"]
+# punctuation that the pinned code round-trips faithfully (probed: everything printable except space, '=', and the Newick
+# metacharacters); primed names come in pairs, because quote characters are what a "quoted labels" reader pairs up
+PUNCT = ["a'", "b'", "c''", 'q"x', 'r"', "x-1", "y.2", "p+q", "n|m", "h#1", "w@z", "k!", "$v", "t%", "u&u", "s*", "c~d", "e`f", "<g>", "h?", "i/j", "{k}", "l^m"]
 ALPHA = "abcdefghijklmnopqrstuvwxyzABCDEFGHIJKLMNOPQRSTUVWXYZ0123456789_"
 
 
@@ -45,6 +48,10 @@ def rand_names(rng, n, style):
     while len(names) < n:
         if style == "special" and pool and rng.random() < 0.5:
             nm = pool.pop()
+        elif style == "punct":
+            nm = rng.choice(PUNCT) if rng.random() < 0.6 or len(names) > len(PUNCT) else rng.choice(PUNCT[:5])
+            if nm in names:
+                nm = nm + str(len(names))
         elif style == "plain":
             nm = rng.choice("abcdefghxyz") + str(len(names))
         else:
@@ -306,7 +313,7 @@ def make_case(rng):
     ns = rng.randint(1, 6)
     G = RT.random_tree_shape(rng, gen.object_labels(no))
     S = RT.random_tree_shape(rng, gen.species_labels(ns))
-    style = rng.choice(["plain", "random", "special", "random"])
+    style = rng.choice(["plain", "random", "special", "random", "punct"])
     gnames = rand_names(rng, count_nodes(G), style)
     snames = rand_names(rng, count_nodes(S), style)
     colors_p = rng.choice([0, 0.2, 0.6])
